@@ -280,6 +280,10 @@ LABEL_SETS = {
 }
 
 
+# label sets used by dedicated cases only (not part of the full product)
+LABEL_SETS_EXTRA = {"four": [47, 3, 20, 11], "fourstr": ["dog", "ant", "cat", "bee"]}  # four classes, listed unsorted
+
+
 def label_array(labels, ks, as_series=False):
     """labels[k] for each class index; class index k maps to the k-th label *as listed*, so
     for the unsorted set the first-seen order differs from the sorted order."""
